@@ -52,6 +52,13 @@ fn okerr<T, E>(r: &Result<T, E>) -> &'static str {
     }
 }
 
+fn text_of(d: &AutoCommit) -> Option<ObjId> {
+    match d.get(ROOT, "t") {
+        Ok(Some((Value::Object(ObjType::Text), t))) => Some(t),
+        _ => None,
+    }
+}
+
 fn list_of(d: &AutoCommit) -> Option<ObjId> {
     match d.get(ROOT, "l") {
         Ok(Some((Value::Object(_), l))) => Some(l),
@@ -117,6 +124,16 @@ impl Mirror {
                 let ga = d.get_all_at(&l, 0, &bh).map(|a| a.len()).unwrap_or(0);
                 let k1 = d.get_all_at(ROOT, "k1", &bh).map(|a| a.len()).unwrap_or(0);
                 write!(o, "/{}/{}/{}", ga, k1, d.keys_at(ROOT, &bh).count()).unwrap();
+            }
+        }
+        if let Some(t) = text_of(d) {
+            let n = d.length(&t);
+            write!(o, " t{}={}", n, d.text(&t).map(|s| hexs(s.as_bytes())).unwrap_or("err".into())).unwrap();
+            for i in 0..n {
+                write!(o, "/{}", d.get_all(&t, i).map(|a| a.len()).unwrap_or(0)).unwrap();
+            }
+            if !bh.is_empty() {
+                write!(o, " tH{}={}", d.length_at(&t, &bh), d.text_at(&t, &bh).map(|s| hexs(s.as_bytes())).unwrap_or("err".into())).unwrap();
             }
         }
         o
@@ -471,7 +488,7 @@ fn same_state(a: &mut AutoCommit, b: &mut AutoCommit) -> bool {
 }
 
 /// behaviours (ndjson) -> (driver program, expected observation lines)
-pub fn programs(text: &str, epilogue: bool) -> (String, String, usize) {
+pub fn programs(text: &str, epilogue: bool, variant: &str) -> (String, String, usize) {
     let mut prog = String::new();
     let mut exp = String::new();
     let mut nb = 0usize;
@@ -484,7 +501,23 @@ pub fn programs(text: &str, epilogue: bool) -> (String, String, usize) {
             m.reps.insert(k, AutoCommit::new().with_actor(enc::actor_from_num(k as u8)));
             writeln!(prog, "new {} {}", k, k).unwrap();
         }
-        {
+        if variant == "text" {
+            let d = m.reps.get_mut(&1).unwrap();
+            for c in [
+                json!({"fn":"put_object","obj":[0,0],"key":"t","ty":"text"}),
+                json!({"fn":"splice_text","obj":[1,1],"idx":0,"del":0,"toks":["a","eacute"]}),
+            ] {
+                calls::exec(d, &c);
+            }
+            commit(d);
+            m.base_heads = d.get_heads();
+            writeln!(prog, "tbase 1").unwrap();
+            let mut base = m.reps[&1].clone();
+            for k in 2..=3i64 {
+                m.reps.get_mut(&k).unwrap().merge(&mut base).unwrap();
+                writeln!(prog, "merge {} 1", k).unwrap();
+            }
+        } else {
             let d = m.reps.get_mut(&1).unwrap();
             for c in [
                 json!({"fn":"put_object","obj":[0,0],"key":"l","ty":"list"}),
@@ -514,7 +547,14 @@ pub fn programs(text: &str, epilogue: bool) -> (String, String, usize) {
                 let f = c["fn"].as_str().unwrap_or("");
                 let islist = c["obj"][0].as_i64() != Some(0);
                 let kind = |v: &J| if v["k"] == "counter" { ("c", v["n"].as_i64().unwrap_or(0)) } else { ("i", v["s"].as_str().unwrap_or("0").parse::<i64>().unwrap_or(0)) };
+                let toks_hex = |v: &J| -> String {
+                    let toks: Vec<String> = v.as_array().map(|a| a.iter().filter_map(|t| t.as_str().map(String::from)).collect()).unwrap_or_default();
+                    hexs(enc::tokens_str(&toks).as_bytes())
+                };
                 let pl = match (f, islist) {
+                    ("put", true) if variant == "text" => format!("tput {} {} {}", r, c["idx"], toks_hex(&c["val"]["toks"])),
+                    ("delete", true) if variant == "text" => format!("tdel {} {}", r, c["idx"]),
+                    ("splice_text", true) => format!("tspl {} {} {} {}", r, c["idx"], c["del"], toks_hex(&c["toks"])),
                     ("put", false) => { let (k, v) = kind(&c["val"]); format!("mput {} {} {} {}", r, c["key"].as_str().unwrap_or("k1"), k, v) }
                     ("delete", false) => format!("mdel {} {}", r, c["key"].as_str().unwrap_or("k1")),
                     ("increment", false) => format!("minc {} {} {}", r, c["key"].as_str().unwrap_or("k1"), c["by"]),
